@@ -80,3 +80,108 @@ Proof.
   assert (Inv s0) by (unfold s0; destruct (in_ctx s); [apply Inv_record|]; exact HI).
   destruct a; [assumption|apply set_oc_zero_Inv; assumption].
 Qed.
+
+(* ---------- helpers about lists ---------- *)
+Lemma memz_In k l : memz k l = true <-> In k l.
+Proof.
+  unfold memz. rewrite existsb_exists. split.
+  - intros [x [Hx E]]. apply Z.eqb_eq in E. subst. exact Hx.
+  - intros H. exists k. split; [exact H|apply Z.eqb_refl].
+Qed.
+Lemma assoc_None m l : assoc_q m l = None <-> memz m (touched l) = false.
+Proof.
+  induction l as [|[a c] l IH]; cbn; [tauto|].
+  rewrite (Z.eqb_sym m a). destruct (a =? m); cbn; [split; discriminate|exact IH].
+Qed.
+Lemma isz_true q : isz q = true <-> q = q0.
+Proof. apply qeqb_true. Qed.
+Lemma isz_false q : isz q = false <-> q <> q0.
+Proof. apply qeqb_false. Qed.
+Lemma Inv_record_all us : forall s, Inv s -> Inv (record_all us s).
+Proof. induction us as [|u us IH]; intros s H; cbn; [exact H|]. apply IH, Inv_record, H. Qed.
+
+Lemma st_after_untouched s r l c m : memz m (touched l) = false -> st_after s r l c m = sto s r m.
+Proof. intros H. unfold st_after. apply assoc_None in H. rewrite H. reflexivity. Qed.
+
+Lemma news_of_spec s r l m :
+  memz m (news_of s r l) = true <-> memz m (touched l) = true /\ min s m = false /\ sto s r m = q0.
+Proof.
+  unfold news_of. rewrite memz_In, filter_In, <- memz_In, andb_true_iff, negb_true_iff, isz_true. tauto.
+Qed.
+
+(* ---------- the content of a state (everything but the context stack) ---------- *)
+Definition content (s : st) : st := set_ctx s [].
+Lemma content_record u s : content (record u s) = content s.
+Proof. unfold record. destruct (ctx s); reflexivity. Qed.
+Lemma content_record_all us : forall s, content (record_all us s) = content s.
+Proof. induction us as [|u us IH]; intros s; cbn; [reflexivity|]. rewrite IH. apply content_record. Qed.
+Lemma Inv_content s : Inv (content s) -> Inv s.
+Proof. intros H. apply (Inv_ctx _ (ctx s)) in H. destruct s; exact H. Qed.
+Lemma content_Inv s : Inv s -> Inv (content s).
+Proof. apply Inv_ctx. Qed.
+
+Ltac conts := apply Inv_content; rewrite ?content_record, ?content_record_all.
+
+(* fields other than the context stack are not touched by recording *)
+Lemma rin_record u s : rin (record u s) = rin s.
+Proof. unfold record. destruct (ctx s); reflexivity. Qed.
+Lemma rin_record_all us : forall s, rin (record_all us s) = rin s.
+Proof. induction us as [|u us IH]; intros s; cbn; [reflexivity|]. rewrite IH. apply rin_record. Qed.
+Lemma lb_record u s : lb (record u s) = lb s.
+Proof. unfold record. destruct (ctx s); reflexivity. Qed.
+Lemma lb_record_all us : forall s, lb (record_all us s) = lb s.
+Proof. induction us as [|u us IH]; intros s; cbn; [reflexivity|]. rewrite IH. apply lb_record. Qed.
+Lemma ub_record u s : ub (record u s) = ub s.
+Proof. unfold record. destruct (ctx s); reflexivity. Qed.
+Lemma ub_record_all us : forall s, ub (record_all us s) = ub s.
+Proof. induction us as [|u us IH]; intros s; cbn; [reflexivity|]. rewrite IH. apply ub_record. Qed.
+Lemma sto_record u s : sto (record u s) = sto s.
+Proof. unfold record. destruct (ctx s); reflexivity. Qed.
+Lemma sto_record_all us : forall s, sto (record_all us s) = sto s.
+Proof. induction us as [|u us IH]; intros s; cbn; [reflexivity|]. rewrite IH. apply sto_record. Qed.
+Lemma min_record u s : min (record u s) = min s.
+Proof. unfold record. destruct (ctx s); reflexivity. Qed.
+Lemma min_record_all us : forall s, min (record_all us s) = min s.
+Proof. induction us as [|u us IH]; intros s; cbn; [reflexivity|]. rewrite IH. apply min_record. Qed.
+Lemma back_record u s : back (record u s) = back s.
+Proof. unfold record. destruct (ctx s); reflexivity. Qed.
+Lemma back_record_all us : forall s, back (record_all us s) = back s.
+Proof. induction us as [|u us IH]; intros s; cbn; [reflexivity|]. rewrite IH. apply back_record. Qed.
+Lemma vin_record u s : vin (record u s) = vin s.
+Proof. unfold record. destruct (ctx s); reflexivity. Qed.
+Lemma vin_record_all us : forall s, vin (record_all us s) = vin s.
+Proof. induction us as [|u us IH]; intros s; cbn; [reflexivity|]. rewrite IH. apply vin_record. Qed.
+Lemma vlb_record u s : vlb (record u s) = vlb s.
+Proof. unfold record. destruct (ctx s); reflexivity. Qed.
+Lemma vlb_record_all us : forall s, vlb (record_all us s) = vlb s.
+Proof. induction us as [|u us IH]; intros s; cbn; [reflexivity|]. rewrite IH. apply vlb_record. Qed.
+Lemma vub_record u s : vub (record u s) = vub s.
+Proof. unfold record. destruct (ctx s); reflexivity. Qed.
+Lemma vub_record_all us : forall s, vub (record_all us s) = vub s.
+Proof. induction us as [|u us IH]; intros s; cbn; [reflexivity|]. rewrite IH. apply vub_record. Qed.
+Lemma cin_record u s : cin (record u s) = cin s.
+Proof. unfold record. destruct (ctx s); reflexivity. Qed.
+Lemma cin_record_all us : forall s, cin (record_all us s) = cin s.
+Proof. induction us as [|u us IH]; intros s; cbn; [reflexivity|]. rewrite IH. apply cin_record. Qed.
+Lemma co_record u s : co (record u s) = co s.
+Proof. unfold record. destruct (ctx s); reflexivity. Qed.
+Lemma co_record_all us : forall s, co (record_all us s) = co s.
+Proof. induction us as [|u us IH]; intros s; cbn; [reflexivity|]. rewrite IH. apply co_record. Qed.
+Lemma oc_record u s : oc (record u s) = oc s.
+Proof. unfold record. destruct (ctx s); reflexivity. Qed.
+Lemma oc_record_all us : forall s, oc (record_all us s) = oc s.
+Proof. induction us as [|u us IH]; intros s; cbn; [reflexivity|]. rewrite IH. apply oc_record. Qed.
+Lemma odir_record u s : odir (record u s) = odir s.
+Proof. unfold record. destruct (ctx s); reflexivity. Qed.
+Lemma odir_record_all us : forall s, odir (record_all us s) = odir s.
+Proof. induction us as [|u us IH]; intros s; cbn; [reflexivity|]. rewrite IH. apply odir_record. Qed.
+Lemma rids_record u s : rids (record u s) = rids s.
+Proof. unfold record. destruct (ctx s); reflexivity. Qed.
+Lemma rids_record_all us : forall s, rids (record_all us s) = rids s.
+Proof. induction us as [|u us IH]; intros s; cbn; [reflexivity|]. rewrite IH. apply rids_record. Qed.
+Lemma mids_record u s : mids (record u s) = mids s.
+Proof. unfold record. destruct (ctx s); reflexivity. Qed.
+Lemma mids_record_all us : forall s, mids (record_all us s) = mids s.
+Proof. induction us as [|u us IH]; intros s; cbn; [reflexivity|]. rewrite IH. apply mids_record. Qed.
+Ltac recs := rewrite ?rin_record, ?rin_record_all, ?lb_record, ?lb_record_all, ?ub_record, ?ub_record_all, ?sto_record, ?sto_record_all, ?min_record, ?min_record_all, ?back_record, ?back_record_all, ?vin_record, ?vin_record_all, ?vlb_record, ?vlb_record_all, ?vub_record, ?vub_record_all, ?cin_record, ?cin_record_all, ?co_record, ?co_record_all, ?oc_record, ?oc_record_all, ?odir_record, ?odir_record_all, ?rids_record, ?rids_record_all, ?mids_record, ?mids_record_all.
+Ltac recs_in H := rewrite ?rin_record, ?rin_record_all, ?lb_record, ?lb_record_all, ?ub_record, ?ub_record_all, ?sto_record, ?sto_record_all, ?min_record, ?min_record_all, ?back_record, ?back_record_all, ?vin_record, ?vin_record_all, ?vlb_record, ?vlb_record_all, ?vub_record, ?vub_record_all, ?cin_record, ?cin_record_all, ?co_record, ?co_record_all, ?oc_record, ?oc_record_all, ?odir_record, ?odir_record_all, ?rids_record, ?rids_record_all, ?mids_record, ?mids_record_all in H.
